@@ -32,8 +32,9 @@ TOLS = ['1e-3', '1e-4', '1e-6', '1e-8', '1e-10', '.001', '1E-5']
 
 @st.composite
 def contraction_case(draw):
-    spec = draw(blocks.system(n_sim=(1, 8), q_hi=80, lags=(0, 3), exos=(0, 2), consts=(0, 2), aliases=(0, 2),
-                              leaves=(0, 2), horizon=(1, 6), ic_prob=15, nonlinear=draw(st.booleans()),
+    from harness import gen
+    spec = draw(blocks.system(n_sim=gen.size((1, 8), (1, 14)), q_hi=80, lags=(0, 3), exos=(0, 2), consts=(0, 2), aliases=(0, 2),
+                              leaves=gen.size((0, 2), (0, 4)), horizon=gen.size((1, 6), (1, 10)), ic_prob=15, nonlinear=draw(st.booleans()),
                               tols=TOLS, user_t=(False, False, True)))
     spec['reduction'] = draw(st.booleans())
     spec['max_iter'] = draw(st.sampled_from([None, None, None, 1000, 30, 5, 1]))
